@@ -6,6 +6,16 @@ props = [json.loads(l) for l in open(os.path.join(ROOT, 'properties.jsonl'))]
 
 # id -> (technique, level text, level note, design ref)
 CHECKS = {
+ 'C09': ("Links_Trace over the typed walk (Events) of Rules.tla: every link of every node of the validated real AST, recorded with pointer identity against the schema's own definitions, must be a fact the walk implies, and every node the walk visits must carry its fact",
+         "360 (quick) / 12,000 (thorough) generated valid documents on generated schemas plus hand-written ones (fields reached only through fragments, __typename on unions, introspection fields, values nested in lists inside input objects inside lists, list-coerced single values, variables in every position incl. fragments shared by several operations, directives on every executable location).",
+         "The inline-fragment link is a recorded known finding (links the enclosing type). Node identity is assigned by the projection.", "4/C09"),
+ 'C10': ("Determinism.tla function law (model-checked) and Determinism_Trace: the complete error list (order, rule, message incl. suggestions, locations, file) of every case observed on fresh parses, on re-validation of the same tree, and in 3/8 fresh worker processes must be identical; same for schema-load errors",
+         "420 (quick) / 3,600 (thorough) cases: generated valid / faulty / misspelt (several equidistant candidates) / type-blind documents, hand documents on a schema with near-identical names (Item / ITEM, Doa..Doe, RED/REB/REC), faulty schemas.",
+         "Map-order effects are sampled over K processes, not enumerated.", "4/C10"),
+ 'C18': ("Compose.tla CompositionLaw model-checked on abstract observers (with an interfering observer as non-vacuity witness); Compose_Trace checks on real runs that each rule set's errors are the multiset union of its members' singleton errors, tags, default = explicit full list, and the without-suggestions variants",
+         "250 (quick) / 2,600 (thorough) (schema, document) pairs x (27 singletons + full list + default + 10/50 random subsets in random order on fresh parses against freshly loaded schemas + 3 subsets in sequence on one shared tree + 4 variants).",
+         "Errors are compared as (rule, message, locations).", "4/C18"),
+
  'C08': ("Rules.tla: the 27 validation rules as predicates over (schema, document) on top of a typed walk written in TLA+ (FieldsInSetCanMerge / SameResponseShape, variable usage with location defaults, literal coercion with 32-bit Int range, oneOf, introspection depth); Rules_Trace evaluates them with TLC on the parsed document and loaded schema and compares the document verdict with validator.Validate; three-way agreement with generator intent",
          "Per run: 3 (quick) / 30 (thorough) generated schemas x (40/150 valid-by-construction documents, 120/500 documents with 1-3 injected faults from a 28-operator catalogue covering every rule, 40/150 type-blind documents over the schema's vocabulary) plus 180 hand-written corner cases on a fixed schema. The verdict (errors / no errors) must equal Rules.tla's; per-rule agreement is recorded as a diagnostic.",
          "Trusts Rules.tla as the reading of section 5; the document / schema given to the specification are projections of the real parser's / loader's output (C05, C07); verdict only, not wording.", "4/C08"),
